@@ -38,6 +38,7 @@ structure Member where
   nillable : Bool
   qualified : Bool
   inChoice : Bool
+  refNs : Option Nat := none     -- `ref=` to a global element of that namespace (always qualified)
   deriving Repr, DecidableEq
 
 structure AttrDecl where
@@ -131,7 +132,7 @@ def encType (env : Env) (t : TRef) : List IAttr :=
 
 /-- The namespace a member's element is written in. -/
 def memberNs (env : Env) (m : Member) (declNs : Nat) : Option String :=
-  if m.qualified then some (env.uri declNs) else none
+  if m.qualified then some (env.uri (m.refNs.getD declNs)) else none
 
 /-- `Typed.skip`: an optional (or choice-branch) member holding None or an empty list is left out. -/
 def skipped (m : Member) (v : Val) : Bool := v.skippable && (m.min == 0 || m.inChoice)
